@@ -145,6 +145,9 @@ func c01Sequences(c *vrep.Ctx) {
 		for i := range seq {
 			seq[i] = r.Choose(len(pool), "doc")
 		}
+		if r.Scout() {
+			return
+		}
 		var sb strings.Builder
 		sb.WriteString(vOOVBlock(2, 5, 0))
 		type exp struct {
@@ -234,6 +237,9 @@ func c01Small(c *vrep.Ctx) {
 		mid := 1 + r.Choose(maxCtx, "mid")
 		post := r.Choose(maxCtx+1, "post")
 		sep := seps[r.Choose(2, "sep")]
+		if r.Scout() {
+			return
+		}
 		cl := NewClassifier(t)
 		cl.AddContent("License", "Doc", "license.txt", []byte(strings.Join(doc, " ")))
 		if second == 1 {
